@@ -92,6 +92,15 @@ func Shrink(raw json.RawMessage) []json.RawMessage {
 	if sc.Dst != "/w/dst" {
 		emit(func(c *Scenario) bool { c.Dst = "/w/dst"; return true })
 	}
+	if sc.SharedPacker {
+		emit(func(c *Scenario) bool { c.SharedPacker = false; return true })
+	}
+	for ai := range sc.Archives {
+		ai := ai
+		if sc.Archives[ai].Dst != "" {
+			emit(func(c *Scenario) bool { c.Archives[ai].Dst = ""; return true })
+		}
+	}
 	if len(sc.Allow) > 0 {
 		emit(func(c *Scenario) bool { c.Allow = nil; return true })
 	}
